@@ -1003,9 +1003,36 @@ def emit_fn(unit, blk, rel):
             caps = parse_caps(ca.get("caps", ""))
             init = ", ".join(f"{nm}: {nm}" for (_, nm, _) in caps)
             ghost_init = ca.get("ghost_init", "h: Ghost(Seq::empty())")
+            if needs_typing_pad(caps):
+                ghost_init += ", __pad: Ghost(0)"
             decl = f" let mut __clo{k} = {ca['name']} {{ {init}{', ' if init else ''}{ghost_init} }}; " + \
                    (MARK.format(f"at closure {k} decl") if f"at closure {k} decl" in blk.sections else "")
             body.edit([(toks_b[j].end, toks_b[j].end, decl)], None)
+            if ca.get("writeback"):
+                # the closure borrows its mutable captures (no `move`): after the statement that runs it, the enclosing
+                # function sees the updated values.  R9 copies them back from the closure object.
+                toks_b = body.toks()
+                pos = [i2 for i2, t in enumerate(toks_b) if t.text == f"__clo{k}"][-1]
+                depth, j2 = 0, pos
+                while j2 < len(toks_b):
+                    tt = toks_b[j2].text
+                    if tt in rtok.OPEN:
+                        depth += 1
+                    elif tt in rtok.CLOSE:
+                        if depth == 0:
+                            if tt == "}":
+                                break
+                            # leaving the argument list the closure object is passed in
+                        else:
+                            depth -= 1
+                    elif tt == ";" and depth == 0:
+                        break
+                    j2 += 1
+                if j2 >= len(toks_b) or toks_b[j2].text != ";":
+                    raise ExtractError(f"unsupported construct: closure {k} of {name} with writeback is not inside a `;`-terminated statement")
+                wb = " ".join(f"{nm} = __clo{k}.{nm};" for (m, nm, _) in caps if m)
+                extra = MARK.format(f"at closure {k} after") if f"at closure {k} after" in blk.sections else ""
+                body.edit([(toks_b[j2].end, toks_b[j2].end, " " + wb + " " + extra)], None)
     # --- body first/last
     txt = body.text
     inner = txt[1:-1] if txt.startswith("{") else txt
@@ -1059,6 +1086,13 @@ def parse_caps(s):
     return caps
 
 
+def needs_typing_pad(caps):
+    """Verus emits the field-typing axiom of a struct only when some field has a bounded integer type; a closure object
+    whose captures are all floats would leave `self.m: f64` untyped and the A-REAL broadcast axioms unusable on it.
+    A ghost nat field (glue, erased at run time) restores the axiom."""
+    return bool(caps) and not any(re.search(r"\b(usize|isize|u\d+|i\d+|nat)\b", ty) for (_, _, ty) in caps)
+
+
 def make_closure(unit, blk, k, ca, cparams, cbody, ftext, ftoks, start_idx, base):
     """closure conversion (R9): returns a thunk that emits the struct + impl"""
     caps = parse_caps(ca.get("caps", ""))
@@ -1097,6 +1131,9 @@ def make_closure(unit, blk, k, ca, cparams, cbody, ftext, ftoks, start_idx, base
     for i, t in enumerate(ftoks[:start_idx]):
         if t.text == "let" and ftoks[i + 1].text == "mut" and ftoks[i + 2].kind == "id":
             muts.add(ftoks[i + 2].text)
+        elif t.text == "let" and ftoks[i + 1].text == "(":
+            e = match_close(ftoks, i + 1)
+            muts |= {ftoks[j2 + 1].text for j2 in range(i + 1, e) if ftoks[j2].text == "mut" and ftoks[j2 + 1].kind == "id"}
     for (m, nm, _) in caps:
         if m != (nm in muts) and nm != "this":
             raise ExtractError(f"lost anchor: capture `{nm}` of closure {k} in {base['src_fn']}: mutability differs from contract")
@@ -1117,6 +1154,8 @@ def make_closure(unit, blk, k, ca, cparams, cbody, ftext, ftoks, start_idx, base
         b = dict(base, fn=f"{name}::call", closure=k)
         fields = " ".join(f"pub {nm}: {ty}," for (_, nm, ty) in caps)
         ghost_fields = ca.get("ghost_fields", f"pub h: Ghost<Seq<{ca.get('callty', 'Call<T, U>')}>>,")
+        if needs_typing_pad(caps):
+            ghost_fields += " pub __pad: Ghost<nat>,"
         unit.emit(f"pub struct {name}{ca.get('generics', '')} {{ {fields} {ghost_fields} }}", dict(b, kind="meta"))
         unit.emit(f"impl{ca.get('generics', '')} {ca['trait']} for {name}{ca.get('generics_use', '')} {{", dict(b, kind="meta"))
         for (txt, ol) in blk.sections.get(f"closure {k} extra", []):
